@@ -327,6 +327,9 @@ func c04Merge(res *c04Result, sub c04Sub) {
 	rank := map[string]int{"": 0, "ok": 1, "err": 2, "panic": 3}
 	if rank[sub.Outcome] > rank[res.Outcome] {
 		res.Outcome = sub.Outcome
+		if sub.Outcome == "err" {
+			res.Raw = sub.Op + ": " + sub.Raw
+		}
 		if sub.Outcome == "panic" {
 			res.Frame, res.Msg, res.Raw, res.Stack = sub.Frame, sub.Msg, sub.Op+": "+sub.Raw, sub.Stack
 		}
